@@ -757,11 +757,7 @@ def pbkdf2_hmac(digest: bytes, secret: bytes, salt: bytes, rounds: int, keylen=N
     # resolve digest
     digest_info = lookup_hash(digest)
 
-    try:
-        return hashlib.pbkdf2_hmac(digest_info.name, secret, salt, rounds, keylen)
-    except OverflowError as err:
-        # e.g. rounds >= 2**31 -- report it like any other out-of-range value
-        raise ValueError(f"pbkdf2: {err}") from None
+    return hashlib.pbkdf2_hmac(digest_info.name, secret, salt, rounds, keylen)
 
 
 PBKDF2_BACKENDS = [
